@@ -126,8 +126,9 @@ func (sc *SearchCache) CleanupExpired() int {
 
 // generateCacheKey creates a unique cache key for the query and options
 func (sc *SearchCache) generateCacheKey(query string, options SearchOptions) string {
-	// Normalize query for consistent caching
-	normalizedQuery := strings.ToLower(strings.TrimSpace(query))
+	// Normalize query for consistent caching. Only letter case is folded: blanks are
+	// significant to the typo fallback, so spacing variants must not share an entry.
+	normalizedQuery := strings.ToLower(query)
 
 	// Create a deterministic key that includes all relevant options
 	keyData := struct {
